@@ -73,6 +73,18 @@ impl MqttSink {
         self.0.verif_set_next_id(val);
     }
 
+    #[cfg(ntex_mqtt_verif)]
+    #[doc(hidden)]
+    /// Verification hook: deliver a write back-pressure notification to the sink, exactly as the
+    /// connection-control service does for `Control::WrBackpressure`.
+    pub fn verif_wr_backpressure(&self, enabled: bool) {
+        if enabled {
+            self.0.enable_wr_backpressure();
+        } else {
+            self.0.disable_wr_backpressure();
+        }
+    }
+
     #[inline]
     /// Force close mqtt connection. mqtt dispatcher does not wait for uncompleted
     /// responses, but it flushes buffers.
